@@ -407,7 +407,7 @@ def random_spec(rng, sid, nmin=3, nmax=6, external=False, decoy=False, struct_va
     elems = []
     produced = []   # abstract types available
     args = []
-    alias = {'a/util': 'util', 'b/util': 'butil'} if external else {}
+    alias = {'a/util': 'util', 'b/util': 'butil', 'c/vals': 'vals'} if external else {}
     nT = [0]
     twin_done = [False]
 
@@ -441,14 +441,14 @@ def random_spec(rng, sid, nmin=3, nmax=6, external=False, decoy=False, struct_va
         r = rng.random()
         if r < 0.12 and i > 0:
             # injected constant (a variable of the main package, or an exported variable of a sub-package)
-            vpkg = rng.choice(['a/util', 'b/util']) if external and rng.random() < 0.6 else ''
+            vpkg = rng.choice(['a/util', 'c/vals', 'c/vals']) if external and rng.random() < 0.7 else ''
             t = new_type(pkg=vpkg)
             elems.append({'kind': 'value', 'type': t, 'pkg': vpkg})
             produced.append(t)
             continue
         if r < 0.2:
             # interface value
-            vpkg = rng.choice(['a/util', 'b/util']) if external and rng.random() < 0.6 else ''
+            vpkg = rng.choice(['b/util', 'c/vals', 'c/vals']) if external and rng.random() < 0.7 else ''
             impl = new_type('ptr', pkg=vpkg)
             iname = 'I%d' % nI
             nI += 1
